@@ -223,7 +223,9 @@ class World:
             sim.fault("ev:" + kind)
             self.last_mut_was = False
         self.trace.append(f"{kind}:{op.get('cls', '')}:{outcome.split(':')[0]}")
-        sim.record("op", op["id"], kind, op.get("h"), outcome, sorted(set(warns)))
+        state = rawgeoh5.sha([[u, r["name"], r["parent"], r["flags"], r.get("values"), sorted(r.get("pgs", {}))]
+                              for hh in sorted(self.h) for u, r in self.h[hh].model.recs.items()])
+        sim.record("op", op["id"], kind, op.get("h"), outcome, sorted(set(warns)), state)
         for orc in oracles:
             orc.after(self, op, outcome)
         # op-granularity GC actor
